@@ -258,7 +258,11 @@ RCP<const MatrixExpr> matrix_mul(const vec_basic &factors)
         return rcp_static_cast<const MatrixExpr>(keep[0]);
     }
     if (keep.size() == 0 && !ident.is_null()) {
-        return ident;
+        if (eq(*scalar, *one)) {
+            return ident;
+        }
+        // a scalar multiple of the identity: keep the scalar
+        keep.push_back(ident);
     }
     return make_rcp<const MatrixMul>(scalar, keep);
 }
